@@ -7,6 +7,6 @@ Extraction Language OCaml.
 Extraction "model_print.ml"
   Base.cstr Dbl.sf_of_bits Dbl.bits_of_sf Dbl.sat_int Dbl.compare_double Tree.node_size
   LibcPrint.fmt_d LibcPrint.fmt_g15 LibcPrint.fmt_g17 LibcPrint.sscanf_lg LibcNum.strtod_ref
-  PrintDefs.cstr_checked PrintDefs.ints_ok
+  PrintDefs.cstr_checked PrintDefs.fields_ok
   PrintEntry.run_render PrintEntry.run_print PrintEntry.run_print_buffered PrintEntry.run_print_preallocated
   ParseDefs.blocks ParseEntry.run_parse_with_length_opts.
